@@ -571,7 +571,7 @@ func genRule(r *rng, u *universe, o ruleOpts) *grule {
 		g.proto = []int{4, 132, 47}[r.intn(3)]
 		g.protoByName = r.chance(50)
 	}
-	if g.proto < 0 && r.chance(15) {
+	if g.proto < 0 && r.chance(30) {
 		g.notProto = []int{6, 17, 1}[r.intn(3)]
 	}
 	if r.chance(35) {
@@ -1633,6 +1633,12 @@ func buildCase(r *rng, o *caseOpts, u *universe, tiers []*gtier, profs []*gprofi
 				p = fix(p)
 				if g.matches(p, ver, w) {
 					addP(p)
+					// the rule's negated protocol, everything else as aimed
+					if g.notProto >= 0 && len(pkts) < maxPkts-2 {
+						e := p
+						e.proto = g.notProto
+						addP(e)
+					}
 					// the far edges of the rule's port ranges (negated ranges first), everything else as aimed
 					for _, q := range append(append([]prange{}, g.notDstPorts...), g.dstPorts...) {
 						if q.first < q.last && len(pkts) < maxPkts-2 {
